@@ -48,6 +48,82 @@ func init() {
 
 func ruleA1BSI(p *Prog) *RuleResult {
 	res := newResult("A1.bsi", ruleDoc["A1.bsi"], 40)
+	// comparison constants travel to the workers inside task structs and through function values, which
+	// the effect summaries do not follow; so every function that receives a *big.Int (or a task holding one)
+	// is checked where it stands: none may overwrite it.
+	{
+		own := p.OWN()
+		var fns []*ssa.Function
+		for _, f := range p.sourceFns() {
+			if pp := fnPkgPath(f); (pp == pkgPathOf("roaring64") || pp == pkgPathOf("BitSliceIndexing")) && f.Blocks != nil {
+				fns = append(fns, f)
+			}
+		}
+		sort.Slice(fns, func(i, j int) bool { return fname(fns[i]) < fname(fns[j]) })
+		// (function, parameter) pairs that receive a field of a task (the shared comparison constants)
+		fromTask := map[*ssa.Function]map[int]bool{}
+		for _, f := range fns {
+			for _, b := range f.Blocks {
+				for _, ins := range b.Instrs {
+					call, ok := ins.(*ssa.Call)
+					if !ok {
+						continue
+					}
+					g := call.Call.StaticCallee()
+					if g == nil {
+						continue
+					}
+					for ai, a := range call.Call.Args {
+						ld, ok := a.(*ssa.UnOp)
+						if !ok || ld.Op != token.MUL {
+							continue
+						}
+						fa, ok := ld.X.(*ssa.FieldAddr)
+						if !ok || !strings.Contains(fieldName(fa.X.Type(), fa.Field), "task.") {
+							continue
+						}
+						if fromTask[g] == nil {
+							fromTask[g] = map[int]bool{}
+						}
+						fromTask[g][ai] = true
+					}
+				}
+			}
+		}
+		for _, f := range fns {
+			sum := own.Sum(f)
+			for k, prm := range f.Params {
+				ts := typeShort(prm.Type())
+				isTask := strings.HasSuffix(ts, "task")
+				isConst := strings.HasSuffix(ts, "big.Int") && (fromTask[f][k] || isExportedAPI(f))
+				if !isTask && !isConst {
+					continue
+				}
+				if k == 0 && f.Signature.Recv() != nil {
+					continue
+				}
+				c := fmt.Sprintf("%s|constant %s unchanged", fname(f), prm.Name())
+				if sum == nil {
+					res.undecided(c, p.pos(f.Pos()), "no effect summary")
+					continue
+				}
+				var cells []string
+				if e := sum.mut[k]; e != nil {
+					for cell, wit := range e.cells {
+						if strings.Contains(cell, "big.Int") || cell == "" {
+							cells = append(cells, wit)
+						}
+					}
+				}
+				sort.Strings(cells)
+				if len(cells) > 0 {
+					res.bad(c, p.pos(f.Pos()), "a *big.Int reachable from "+prm.Name()+" is overwritten: it is the caller's comparison constant, shared by every column and every worker goroutine", cells...)
+				} else {
+					res.ok(c, p.pos(f.Pos()), "no big.Int reachable from it is written")
+				}
+			}
+		}
+	}
 	for _, level := range []string{"64", "B32"} {
 		e, err := p.TL(level)
 		if err != nil {
@@ -93,6 +169,39 @@ func ruleA1BSI(p *Prog) *RuleResult {
 					note = "mutator: changes only its receiver"
 				}
 				res.ok(c, p.pos(f.Pos()), note)
+			}
+			// arguments that are not bitmaps (big.Int constants, value lists): unchanged, by the effect summaries
+			if osum := p.OWN().Sum(f); osum != nil {
+				for k := 1; k < len(f.Params); k++ {
+					pt := f.Params[k].Type()
+					if !hasPointers(pt) {
+						continue
+					}
+					ts := typeShort(pt)
+					if strings.HasSuffix(ts, "Bitmap") || strings.HasSuffix(ts, "BSI") {
+						continue // bitmaps: decided above at table level
+					}
+					if _, isFn := pt.Underlying().(*types.Signature); isFn {
+						continue
+					}
+					if _, isIface := pt.Underlying().(*types.Interface); isIface {
+						continue // streams (io.Reader / io.Writer) are advanced by design
+					}
+					ca := fmt.Sprintf("%s|argument %s unchanged", fname(f), f.Params[k].Name())
+					if e := osum.mut[k]; e != nil && (e.shallow || e.deep) {
+						var w []string
+						for cell, wit := range e.cells {
+							w = append(w, cell+": "+wit)
+						}
+						sort.Strings(w)
+						if len(w) > 3 {
+							w = w[:3]
+						}
+						res.bad(ca, p.pos(f.Pos()), "the call may overwrite memory of its argument "+f.Params[k].Name()+" ("+ts+"), which belongs to the caller and may be shared by the worker goroutines", w...)
+					} else {
+						res.ok(ca, p.pos(f.Pos()), "never written")
+					}
+				}
 			}
 			// returned pointers
 			for ri := 0; ri < f.Signature.Results().Len() && ri < len(s.retTab); ri++ {
